@@ -51,7 +51,14 @@ func (self *mmLexInfo) Lex(lval *mmSymType) int {
 		// Advance the cursor pos.
 		self.pos += len(val)
 		if self.incCol {
-			self.loc.Col += len(self.token)
+			// The previous token may be a string which spans lines.
+			if n := bytes.Count(self.token, []byte{'\n'}); n > 0 {
+				self.loc.Line += n
+				self.loc.Col = len(self.token) -
+					bytes.LastIndexByte(self.token, '\n')
+			} else {
+				self.loc.Col += len(self.token)
+			}
 		}
 
 		// If whitespace or comment, advance line count by counting newlines.
